@@ -66,7 +66,28 @@ def check(F, rep, tier):
         hp = [p for p in reach if p.rsplit("::", 1)[-1] == helper and fam in p]
         if hp and hp[0] in disp[fam]: rep.ok("R15.2", "%s uses %s, which Display also reaches" % (acc.rsplit("::", 2)[-2] + "::" + acc.rsplit("::", 1)[-1], helper), nontrivial_key=acc)
         else: rep.bad("R15.2", "part-helper:" + acc.rsplit("::", 2)[-2] + "::" + acc.rsplit("::", 1)[-1], "%s does not go through %s (the helper Display uses): the parts would not recompose to the printed version" % (acc, helper), g.where())
-        # accessor reads the matching fields of self
+        # the accessor hands the helper's text through unchanged (no trimming / re-formatting on the way out)
+        def leaf_calls(fn, op, depth=0):
+            out = []
+            if depth > 6: return out
+            for o in mir.trace_op(fn, op, transparent=()):
+                if o.kind == "call":
+                    t = fn.blocks[o.data]["t"]; c = mir.callee(t) or ""
+                    if c.endswith("Option::<T>::map") or c.endswith("Option::<T>::as_ref"):
+                        if c.endswith("::map"):
+                            for o2 in mir.trace_op(fn, t[2][1], transparent=()):
+                                if o2.kind == "agg" and mir.rv_at(fn, *o2.data)[1].get("k") == "closure":
+                                    c2 = F.fn(mir.rv_at(fn, *o2.data)[1]["path"])
+                                    if c2 is not None: out += leaf_calls(c2, ["cp", [0]], depth + 1)
+                        continue
+                    out.append(c)
+                elif o.kind == "agg":
+                    for a in mir.rv_at(fn, *o.data)[2]: out += leaf_calls(fn, a, depth + 1)
+            return out
+        leaves = leaf_calls(g, ["cp", [0]])
+        extra = [c for c in leaves if c.rsplit("::", 1)[-1] != helper]
+        if leaves and not extra: rep.ok("R15.2", "%s returns %s's text unchanged" % (acc.rsplit("::", 1)[-1], helper), nontrivial_key=acc + "raw")
+        else: rep.bad("R15.2", "part-postprocessed:" + acc.rsplit("::", 2)[-2] + "::" + acc.rsplit("::", 1)[-1], "%s post-processes the helper's text with %s before returning it: the parts no longer recompose to the printed version" % (acc, [c.rsplit("::", 1)[-1] for c in extra] or "nothing recognisable"), g.where())
     pp = F.fn("crate::version::pep440::core::PEP440::to_pre_release_part")
     if pp is not None:
         norm = any((mir.callee(t) or "").endswith("PEP440Separators::<'a>::normalized") or (mir.callee(t) or "").endswith("::normalized") for b2, t in pp.calls())
@@ -150,6 +171,75 @@ def check(F, rep, tier):
         okp = got == want
         if okp: rep.ok("R15.5", "sanitize presets dispatch to the renderers' own Sanitizer constructors", sample=got, nontrivial_key="presets")
         else: rep.bad("R15.5", "sanitize-presets", "sanitize(preset=..) dispatch is %s" % got, sf.where())
+    # custom parameters: the default preset is used only when NONE of the four optional arguments is present
+    if sf is not None:
+        probs = []; n_def = 0; undecided = 0
+        try:
+            for p_ in mir.enum_paths(sf, limit=20000):
+                if sf.blocks[p_[-1]]["t"][0] != "ret": continue
+                sp = mir.SymPath(sf, p_)
+                ctors = [str(nme).rsplit("::", 1)[-1] for b3, nme, a3, t3 in sp.calls if str(nme).startswith("crate::utils::sanitize::Sanitizer::") and str(nme).rsplit("::", 1)[-1] != "sanitize"]
+                preset_given = None
+                absent = set(); other = []
+                # prune infeasible paths: the same Option tested as Some by is_some() and as not-Some by a discriminant (or twice differently)
+                state = {}; feasible = True
+                for d, (rel, vals), b in sp.conds:
+                    tr = not ((rel == "eq" and 0 in vals) or (rel == "ne" and 0 not in vals))
+                    subj = None; some = None
+                    if d[0] == "call" and str(d[1]).endswith("::is_some"): subj = mir.show(d[2][0]); some = tr
+                    elif d[0] == "call" and str(d[1]).endswith("::is_none"): subj = mir.show(d[2][0]); some = not tr
+                    elif d[0] == "discr" and "Option" in str(mir.describe_discr(sf, b)[2] if mir.describe_discr(sf, b)[0] == "discr" else ""):
+                        subj = mir.show(d[1]); some = (rel == "eq" and 1 in vals) or (rel == "ne" and 0 in vals and 1 not in vals)
+                    elif d[0] == "const" and isinstance(d[1], (bool, int)):
+                        # a constant-folded bool local (has_custom_params = true) whose switch takes the other edge
+                        if bool(d[1]) != tr: feasible = False; break
+                        continue
+                    if subj is not None:
+                        if subj in state and state[subj] != some: feasible = False; break
+                        state[subj] = some
+                    # plain bool locals tested twice
+                    if d[0] not in ("call", "discr"):
+                        k2 = "bool:" + mir.show(d)
+                        if k2 in state and state[k2] != tr: feasible = False; break
+                        state[k2] = tr
+                if not feasible: continue
+                for d, (rel, vals), b in sp.conds:
+                    truth = not ((rel == "eq" and 0 in vals) or (rel == "ne" and 0 not in vals))
+                    if d[0] == "discr" and "preset" in mir.show(d[1]): preset_given = (rel == "eq" and 1 in vals) or (rel == "ne" and 0 in vals)
+                    if d[0] == "call":
+                        nm = str(d[1]).rsplit("::", 1)[-1]; txt = mir.show(d)
+                        for arg in ("separator", "keep_zeros", "max_length", "lowercase"):
+                            if ("'%s'" % arg) in txt or arg in txt:
+                                if nm == "is_some" and not truth: absent.add(arg)
+                                elif nm == "is_none" and truth: absent.add(arg)
+                                elif nm not in ("is_some", "is_none"): other.append((arg, nm))
+                    if d[0] == "discr":
+                        txt = mir.show(d[1])
+                        for arg in ("separator", "keep_zeros", "max_length", "lowercase"):
+                            if arg in txt and state.get(txt) is False: absent.add(arg)
+                if ctors == ["semver_str"] and not any(mir.str_eq_cond(c) and mir.str_eq_cond(c)[2] for c in sp.conds):
+                    n_def += 1
+                    if not absent and not other: undecided += 1      # presence not tested by any idiom this rule knows: no verdict
+                    elif absent != {"separator", "keep_zeros", "max_length", "lowercase"}:
+                        probs.append("default preset reached with only %s known absent (tests on the others: %s)" % (sorted(absent), other))
+        except mir.TooManyPaths:
+            probs.append("too many paths")
+        if probs: rep.bad("R15.5", "custom-params-detection", "sanitize(): %s - an explicitly given argument (e.g. lowercase=false) must select the custom sanitiser" % probs[:1], sf.where())
+        elif n_def and undecided == n_def: rep.ok("R15.5", "presence of the optional sanitize() arguments is not tested by is_some/is_none/match on the default-preset paths: rule not evaluated (%d paths)" % n_def)
+        elif n_def: rep.ok("R15.5", "the default preset is used only when separator, keep_zeros, max_length and lowercase are all absent (%d paths)" % n_def, nontrivial_key="customdetect")
+        else: rep.bad("R15.5", "below-floor:default-preset-paths", "no default-preset path found in sanitize_function", sf.where())
+    # ---- R15.7 format_timestamp is UTC ------------------------------------------------------------------------------------
+    import c14
+    ft = F.fn("crate::cli::utils::template::functions::format_timestamp_function")
+    if rep.anchor("R15.7", "format_timestamp_function", ft):
+        rep.fn_seen(ft)
+        texts = list(ft.locals) + [t[1].get("full") or "" for b2, t in ft.calls()]
+        hits = sorted({h for tx in texts for h in c14.bad_zone(tx)})
+        utc = any("chrono::DateTime<chrono::Utc>" in tx or "chrono::Utc" in tx for tx in texts)
+        from_ts = any((mir.callee(t) or "").endswith("::from_timestamp") for b2, t in ft.calls())
+        if hits: rep.bad("R15.7", "format-timestamp-zone", "format_timestamp uses non-UTC time zone machinery: %s" % hits, ft.where())
+        elif utc and from_ts: rep.ok("R15.7", "format_timestamp formats DateTime::<Utc>::from_timestamp(value)", nontrivial_key="ftutc")
+        else: rep.bad("R15.7", "format-timestamp-shape", "format_timestamp does not build a UTC DateTime with from_timestamp", ft.where())
     # ---- R15.6 length bounding -----------------------------------------------------------------------------------------------
     ctx = panics.Ctx(F, cg)
     for nm in ("hash_function", "hash_int_function"):
